@@ -619,7 +619,7 @@ func (e *Engine) applyContract(fr *Frame, st *State, con *Contract, sig *types.S
 		}
 		ctx.havoc(l, "mod_"+sanitize(exprStr(m)))
 	}
-	for _, g := range con.GhostInc {
+	for _, g := range append(append([]string{}, con.GhostInc...), con.GhostIncSite...) {
 		cur, ok := st.ghost[g].(*Term)
 		if !ok {
 			cur, _ = e.ghostInit(st, g).(*Term)
